@@ -7,6 +7,10 @@ Streams
   bad    malformed inputs: garbage strings, None, NaN, Infinity, containers, ... and the bool keywords
   ops    the decimal operations of the model one by one against Python's decimal module
          (validates the model of `decimal`; not a statement about /repo)
+  hist   histories on ONE live Service with four long-lived Characteristic objects: metadata re-assigned
+         (Declare), values reported by the accessory (Report: set_value / value setter), multi-entry
+         build_update payloads (Prepare) - against Model/ConvertHist.v (`run`), with an oracle that knows only
+         the metadata in force and a fresh-object re-run that tells history dependence from plain wrong results
 
 For every case: implementation result (real code, through Service.build_update), model result
 (extracted OCaml), and the independent oracle harness/ref/stepgrid.py (fractions.Fraction).
@@ -19,7 +23,7 @@ import math
 from decimal import Decimal
 from fractions import Fraction
 
-from common import Coverage, Driver, coq_eval, rng, violation
+from common import Coverage, Driver, coq_eval, rng, shrink_list, violation
 from ref import stepgrid
 
 INT_FORMATS = ["uint8", "uint16", "uint32", "uint64", "int"]
@@ -406,6 +410,276 @@ def py_op(name, prec, mode, a, b):
             return "none"
 
 
+
+# ---------------------------------------------------------------- histories on live objects
+class HistImpl:
+    """One real Service with four real Characteristic objects that live for a whole history."""
+    N = 4
+
+    def __init__(self):
+        from aiohomekit.model import Accessory
+        from aiohomekit.model.characteristics import CharacteristicsTypes as CT
+        from aiohomekit.model.services import ServicesTypes
+        self.acc = Accessory(1)
+        self.svc = self.acc.add_service(ServicesTypes.THERMOSTAT)
+        self.types = [CT.TEMPERATURE_TARGET, CT.BRIGHTNESS, CT.ON, CT.HUE]
+        self.chars = [self.svc.add_char(t, format=f, min_value=None, max_value=None, min_step=None, perms=["pr", "pw", "ev"])
+                      for t, f in zip(self.types, HIST_INIT_FMT)]
+
+    def apply(self, o):
+        """-> None for Declare / Report, canonical result string for Prepare"""
+        from aiohomekit.exceptions import FormatError
+        if o[0] == "D":
+            c = self.chars[o[1]]
+            c.format, c.minValue, c.maxValue, c.minStep = o[2], o[3], o[4], o[5]
+            return None
+        if o[0] == "R":
+            c = self.chars[o[1]]
+            try:
+                if o[3] == "setter":
+                    c.value = o[2]
+                else:
+                    c.set_value(o[2])
+            except Exception as e:  # noqa
+                return "report-raised:" + type(e).__name__
+            return None
+        try:
+            out = self.svc.build_update({self.types[k]: v for k, v in o[1]})
+        except FormatError:
+            return "err"
+        except Exception as e:  # noqa
+            return "other:" + type(e).__name__
+        if not isinstance(out, list):
+            return "other:not-a-list"
+        words = ["ok"]
+        for t in out:
+            if not (isinstance(t, tuple) and len(t) == 3):
+                return "other:entry-shape"
+            words.append(f"{t[0]}/{t[1]}/" + Impl.canon(t[2])[3:].replace(" ", "/"))
+        return "|".join(words)
+
+
+HIST_INIT_FMT = ["float", "uint8", "bool", "float"]
+
+
+def hist_model_line(iids, ops):
+    w = ["hist", "1", str(len(iids))]
+    for k, (iid, f) in enumerate(zip(iids, HIST_INIT_FMT)):
+        w.append(f"{k};{iid};{f};-;-;-")
+    for o in ops:
+        if o[0] == "D":
+            w.append("D;%d;%s;%s;%s;%s" % (o[1], o[2], opt_tok(o[3]), opt_tok(o[4]), opt_tok(o[5])))
+        elif o[0] == "R":
+            w.append("R;%d;%s" % (o[1], reading_tok(o[2])))
+        else:
+            w.append(";".join(["P"] + ["%d=%s=%s" % (k, reading_tok(v), str_tok(v).replace(" ", "")) for k, v in o[1]]))
+    return " ".join(w)
+
+
+def hist_model_canon(word):
+    if not word.startswith("ok"):
+        return word
+    parts = word.split("|")
+    out = ["ok"]
+    for p in parts[1:]:
+        a, i, kind, val = p.split("/", 3)
+        if kind == "dec":
+            try:
+                out.append(f"{a}/{i}/float/" + fl(float(tok_dec(val))))
+            except OverflowError:
+                out.append(f"{a}/{i}/float/overflow")
+        else:
+            out.append(p)
+    return "|".join(out)
+
+
+def hist_oracle(cur, iids, payload, impl):
+    """cur[k] = (fmt, min, max, step) in force.  None or (slug, text)."""
+    must_reject = False
+    for k, v in payload:
+        fmt = cur[k][0]
+        if fmt == "bool":
+            must_reject |= stepgrid.ref_bool(str(v)) is None
+        else:
+            must_reject |= stepgrid.reading(v) is None
+    if impl == "err":
+        return None if must_reject else ("convertible-rejected", "every entry of the payload is convertible but build_update raised FormatError")
+    if not impl.startswith("ok"):
+        return ("raised:" + impl.split(":")[-1], f"build_update raised {impl}")
+    if must_reject:
+        return ("reject-accepted", f"the payload holds an unconvertible entry but build_update returned {impl[:120]}")
+    ents = impl.split("|")[1:]
+    if len(ents) != len(payload):
+        return ("shape:length", f"{len(payload)} payload entries gave {len(ents)} results")
+    for (k, v), e in zip(payload, ents):
+        a, i, kind, val = e.split("/", 3)
+        if a != "1" or i != str(iids[k]):
+            return ("shape:ids", f"entry for characteristic #{k} (iid {iids[k]}) came back as aid/iid {a}/{i}: results must follow payload order")
+        fmt, mn, mx, st = cur[k]
+        orc = oracle(fmt, mn, mx, st, v, f"ok {kind} {val}")
+        if orc is not None:
+            return (orc[0], f"characteristic #{k}: " + orc[1])
+    return None
+
+
+def hist_str_ok(v):
+    """str(value) must travel as a single driver word"""
+    s = str(v)
+    return not any(ch.isspace() or ch in ";=|" for ch in s)
+
+
+def gen_history(r, n_ops):
+    cur = {k: (f, None, None, None) for k, f in enumerate(HIST_INIT_FMT)}
+    ops = []
+
+    def value_for(k):
+        fmt, mn, mx, st = cur[k]
+        m = r.random()
+        if fmt == "bool":
+            return r.choice(BOOL_WORDS[:24] + BOOL_VALUES[:8]) if m < 0.9 else r.choice(["2", "maybe", 7, None])
+        if m < 0.06:
+            return r.choice(["abc", None, float("nan"), "inf", [], ""])
+        v = rand_value(r, fmt, mn, mx, st)
+        return v if not isinstance(v, str) or hist_str_ok(v) else v.strip()
+
+    while len(ops) < n_ops:
+        m = r.random()
+        k = r.randrange(HistImpl.N)
+        if m < 0.22:
+            fmt = r.choice(NUM_FORMATS + ["float", "uint8", "bool"])
+            mn, mx, st = rand_bounds(r, fmt) if fmt != "bool" else (None, None, None)
+            if r.random() < 0.35 and cur[k][0] == fmt and cur[k][2] is not None and isinstance(cur[k][2], int):
+                mx = max(cur[k][2] - r.choice([1, 5, 13]), mn if isinstance(mn, int) else 0)     # tighten the current range
+            ops.append(("D", k, fmt, mn, mx, st))
+            cur[k] = (fmt, mn, mx, st)
+        elif m < 0.40:
+            fmt, mn, mx, st = cur[k]
+            c = r.random()
+            if c < 0.35 and isinstance(mn, (int, float)):
+                v = mn - r.choice([1, 10, 0.5])                       # the accessory reports less than its own minimum
+            elif c < 0.55 and isinstance(mx, (int, float)):
+                v = mx + r.choice([1, 10, 0.5])
+            elif c < 0.65:
+                v = r.choice([None, 0, 0.0, True, "x", 27.26, -1])
+            else:
+                v = value_for(k)
+            ops.append(("R", k, v, r.choice(["set_value", "setter"])))
+        elif m < 0.52:
+            # report exactly the value that is written next (same Python object type)
+            v = value_for(k)
+            ops.append(("R", k, v, r.choice(["set_value", "setter"])))
+            ops.append(("P", [(k, v)]))
+        elif m < 0.62 and ops and ops[-1][0] == "P":
+            # same payload again after re-declaring one of its characteristics
+            pk = ops[-1][1][0][0]
+            fmt = cur[pk][0]
+            if fmt != "bool":
+                mn, mx, st = rand_bounds(r, fmt)
+                ops.append(("D", pk, fmt, mn, mx, st))
+                cur[pk] = (fmt, mn, mx, st)
+            ops.append(("P", list(ops[-2][1] if ops[-1][0] == "D" else ops[-1][1])))
+        else:
+            ks = r.sample(range(HistImpl.N), r.choice([1, 1, 2, 2, 3, 4]))
+            ops.append(("P", [(kk, value_for(kk)) for kk in ks]))
+    return ops
+
+
+# directed histories: the shapes of seeds C14-E (write what was just reported) and C14-G (limits re-declared between writes)
+HIST_FIXED = [
+    [("D", 0, "float", 10, 38, 0.5), ("P", [(0, 27.26)]), ("D", 0, "float", 10, 25, 0.1), ("P", [(0, 27.26)]), ("P", [(0, 22.26)])],
+    [("D", 0, "float", 10, 30, 0.5), ("R", 0, 0.0, "set_value"), ("P", [(0, 0.0)]), ("R", 0, 31.0, "setter"), ("P", [(0, 31.0)])],
+    [("D", 1, "uint8", 0, 100, 5), ("R", 1, 7, "set_value"), ("P", [(1, 7)]), ("R", 1, 7.0, "setter"), ("P", [(1, 7.0)])],
+    [("D", 0, "float", 7.2, 33.4, 0.1), ("D", 1, "uint8", 0, 100, 1), ("D", 3, "float", 0, 360, 1),
+     ("P", [(3, 359.6), (0, 27.95), (2, True), (1, 28.5)]), ("P", [(1, 3), (0, "abc")]), ("P", [])],
+    [("D", 1, "uint32", 0, 4294967295, 1), ("P", [(1, 4294967295), (0, 1.5)]), ("D", 1, "uint32", 0, 1000, 3), ("P", [(1, 4294967295)])],
+]
+
+
+def hist_json(ops):
+    out = []
+    for o in ops:
+        flat = list(o[1:2]) + ([x for kv in o[1] for x in kv] if o[0] == "P" else list(o[2:]))
+        if json_case(tuple(x for x in flat if not isinstance(x, list))) is None:
+            return None
+        out.append([o[0], [list(kv) for kv in o[1]]] if o[0] == "P" else list(o))
+    return out
+
+
+def hist_from_json(j):
+    return [("P", [tuple(kv) for kv in o[1]]) if o[0] == "P" else tuple(o) for o in j]
+
+
+def run_history(ops):
+    """fresh objects; -> (iids, [result or None per op])"""
+    h = HistImpl()
+    return [c.iid for c in h.chars], [h.apply(o) for o in ops]
+
+
+def track(ops):
+    cur = {k: (f, None, None, None) for k, f in enumerate(HIST_INIT_FMT)}
+    for o in ops:
+        if o[0] == "D":
+            cur[o[1]] = tuple(o[2:6])
+    return cur
+
+
+def last_prepare_fails(ops):
+    if not ops or ops[-1][0] != "P":
+        return False
+    iids, res = run_history(ops)
+    return hist_oracle(track(ops), iids, ops[-1][1], res[-1]) is not None
+
+
+def hist_stream(ctx, drv, cov, add, histories):
+    lines = []
+    runs = []
+    for ops in histories:
+        iids, res = run_history(ops)
+        runs.append((iids, res))
+        lines.append(hist_model_line(iids, ops))
+    answers = drv.batch(lines)
+    for hi, (ops, (iids, res), ans) in enumerate(zip(histories, runs, answers)):
+        mwords = [hist_model_canon(w) for w in ans.split(" ")] if ans != "none" else []
+        cur = {k: (f, None, None, None) for k, f in enumerate(HIST_INIT_FMT)}
+        pi = 0
+        reported, redeclared = {}, set()
+        for j, (o, got) in enumerate(zip(ops, res)):
+            if o[0] == "D":
+                if cur[o[1]] != tuple(o[2:6]):
+                    redeclared.add(o[1])
+                cur[o[1]] = tuple(o[2:6])
+                continue
+            if o[0] == "R":
+                reported[o[1]] = o[2]
+                if got is not None:
+                    add("hist:" + got, f"reporting {o[2]!r} for characteristic #{o[1]} raised ({got})", True,
+                        stream="hist", history=[repr(x) for x in ops[:j + 1]], history_json=hist_json(ops[:j + 1]))
+                continue
+            m = mwords[pi] if pi < len(mwords) else "missing"
+            pi += 1
+            payload = o[1]
+            orc = hist_oracle(cur, iids, payload, got)
+            same_rep = any(k in reported and type(reported[k]) is type(v) and reported[k] == v for k, v in payload)
+            if orc is not None:
+                # does it need the history?  the same payload on fresh objects carrying only the metadata in force
+                fresh = [("D", k) + cur[k] for k in sorted({k for k, _ in payload})] + [o]
+                hist_dep = not last_prepare_fails(fresh)
+                small = shrink_list(ops[:j], lambda c: last_prepare_fails(list(c) + [o]), budget=120) + [o] if hist_dep else fresh
+                key = "hist:" + ("history-dependent:" if hist_dep else "") + orc[0]
+                add(key, ("after a history, " if hist_dep else "") + orc[1] + f" | shrunk history: {[repr(x) for x in small]}"[:700], True,
+                    stream="hist", history=[repr(x) for x in small], history_json=hist_json(small), impl=got, model=m,
+                    needs_history=hist_dep)
+            elif got != m:
+                add("hist:model-mismatch", f"build_update gives {got[:160]}, model {m[:160]} after {[repr(x) for x in ops[:j + 1]]}"[:900], False,
+                    stream="hist", history=[repr(x) for x in ops[:j + 1]], history_json=hist_json(ops[:j + 1]), impl=got, model=m,
+                    broken="correspondence Model/ConvertHist.v <-> Service.build_update on live objects")
+            cov.case("h" + repr((sorted((k, cur[k]) for k, _ in payload), payload)), True,
+                     sample=dict(stream="hist", history=[repr(x) for x in ops[max(0, j - 3):j + 1]], impl=got[:100]) if (hi * 31 + j) % 2999 == 0 else None,
+                     stream="hist", hist_payload_entries=len(payload), hist_result=got.split("|")[0].split(":")[0],
+                     hist_ops_before=min(j, 40) // 5 * 5, hist_reported_same_value_before=same_rep,
+                     hist_redeclared_before=any(k in redeclared for k, _ in payload),
+                     hist_formats="+".join(sorted({cur[k][0] for k, _ in payload})) if len(payload) <= 2 else "3+")
+
 # ---------------------------------------------------------------- extraction cross-check
 def _coq_dec(t):
     s, c, e = t.split(":")
@@ -532,6 +806,9 @@ def run(ctx):
         rp = json.load(open(ctx["replay"]))
         if rp.get("case_json") is not None:
             replay_case = tuple(rp["case_json"])
+        if rp.get("history_json") is not None:
+            hist_stream(ctx, drv, cov, add, [hist_from_json(rp["history_json"])])
+            return dict(coverage=cov.to_dict(), violations=viols)
     if replay_case is not None:
         streams = [("replay", [replay_case])]
     else:
@@ -591,6 +868,14 @@ def run(ctx):
                 stream="ops", case=dict(op=n, prec=p, mode=md, a=str(a), b=str(b)), impl=want, model=m,
                 broken="model of Python's decimal arithmetic (Model/Convert.v)")
         cov.case("op" + repr((n, p, md, a, b)), True, stream="ops", op=n)
+    # ---- histories on one live service
+    if replay_case is None:
+        rh = rng(seed, "c14hist")
+        n_h = 900 if tier == "quick" else 20000
+        hist_stream(ctx, drv, cov, add, HIST_FIXED + [gen_history(rh, rh.choice([6, 12, 24, 40])) for _ in range(n_h)])
+        cov.extra["hist_stream"] = ("%d histories of 6..40 operations on one live Service with 4 Characteristic objects; every Prepare is "
+                                    "one case; oracle = metadata in force only; failing Prepares are re-run on fresh objects to "
+                                    "separate history dependence" % (n_h + len(HIST_FIXED)))
     # ---- extracted driver vs vm_compute on a sample of the same requests
     if replay_case is None:
         n_x, bad_x, detail_x = vm_crosscheck(ctx, crosscheck_sample(xpairs))
